@@ -12,6 +12,60 @@ from .expr import Keys, callee, call_args, peel
 GUARD_RE = re.compile(r'\b(std::)?(lock_guard|unique_lock|scoped_lock|shared_lock)<')
 
 
+def wrapper_guard_records(unit):
+    """{record decl id: mutex key} for classes that hold a std::lock_guard / scoped_lock member which every
+    constructor locks on one and the same mutex expression: an object of such a class is a guard of that mutex for
+    its whole lifetime (lock_guard cannot be released)."""
+    if hasattr(unit, '_wrapper_guards'):
+        return unit._wrapper_guards
+    out = {}
+    K = Keys(unit)
+    for r in unit.walk():
+        if r.get('kind') != 'CXXRecordDecl' or not r.get('completeDefinition'):
+            continue
+        flds = [c for c in kids(r) if c.get('kind') == 'FieldDecl' and re.search(r'\b(lock_guard|scoped_lock)<', (dtype(c) or '') + qtype(c))]
+        if len(flds) != 1:
+            continue
+        keys = set()
+        ctors = [c for c in kids(r) if c.get('kind') == 'CXXConstructorDecl' and not c.get('explicitlyDeleted') and not c.get('isImplicit')
+                 and not c.get('explicitlyDefaulted')]
+        ok = bool(ctors)
+        for c in ctors:
+            body = c
+            if not any(k.get('kind') == 'CompoundStmt' for k in kids(c)):
+                # defined out of class: find the definition
+                defs = [d for d in unit.walk() if d.get('kind') == 'CXXConstructorDecl' and d.get('previousDecl') == c.get('id')]
+                body = defs[0] if defs else None
+            if body is None:
+                ok = False
+                break
+            inits = [ci for ci in kids(body) if ci.get('kind') == 'CXXCtorInitializer' and (ci.get('anyInit') or {}).get('name') == flds[0].get('name')]
+            if len(inits) != 1:
+                ok = False
+                break
+            ce = [y for y in walk(inits[0]) if y.get('kind') == 'CXXConstructExpr']
+            args = call_args(ce[0]) if ce else []
+            if len(args) != 1:
+                ok = False
+                break
+            keys.add(K.key(args[0]))
+        if ok and len(keys) == 1:
+            out[r['id']] = (list(keys)[0], r)
+    unit._wrapper_guards = out
+    return out
+
+
+def wrapper_guard_key(unit, type_text):
+    t = re.sub(r'\b(const|volatile|class|struct)\b', '', type_text or '').replace('&', '').strip()
+    if not t or '*' in t or '<' in t:
+        return None
+    name = t.split('::')[-1].strip()
+    for rid, (mk, r) in wrapper_guard_records(unit).items():
+        if r.get('name') == name:
+            return mk
+    return None
+
+
 class LockRegions(object):
     def __init__(self, unit, fn):
         self.fn = fn
@@ -20,6 +74,18 @@ class LockRegions(object):
         self.manual = []      # raw lock/unlock calls that cannot be followed
         self.toggles = []     # (call, guard decl id, locks?) : unique_lock::lock()/unlock() on a local guard
         for x in walk(fn):
+            if x.get('kind') == 'VarDecl' and not GUARD_RE.search(dtype(x) or qtype(x)):
+                # a local object of a class that owns a lock_guard member locked in its constructor: a guard too
+                mk = wrapper_guard_key(unit, dtype(x) or qtype(x))
+                if mk is not None:
+                    ds = x.get('_p')
+                    comp = ds.get('_p') if ds is not None else None
+                    if ds is not None and ds.get('kind') == 'DeclStmt' and comp is not None and comp.get('kind') == 'CompoundStmt':
+                        idx = [i for i, c in enumerate(kids(comp)) if c is ds][0]
+                        self.guards.append((x, mk, comp, idx))
+                    else:
+                        self.manual.append(x)
+                    continue
             if x.get('kind') == 'VarDecl' and GUARD_RE.search(dtype(x) or qtype(x)):
                 ds = x.get('_p')
                 comp = ds.get('_p') if ds is not None else None
@@ -189,10 +255,48 @@ def static_mutex_keys(program):
     return out, fnkeys
 
 
+def _in_class_decl(f):
+    """The declaration of a member function inside its class (the node itself when defined in class)."""
+    u = f.get('_u')
+    d = f
+    seen = 0
+    while d is not None and (d.get('_p') or {}).get('kind') not in ('CXXRecordDecl', 'ClassTemplateSpecializationDecl') and seen < 4:
+        pid = d.get('previousDecl')
+        d = u.by_id.get(pid) if (u is not None and pid) else None
+        seen += 1
+    return d
+
+
+def _member_access(d):
+    """'public' / 'protected' / 'private' of an in-class member declaration (by the access specifiers before it)."""
+    rec = d.get('_p') or {}
+    acc = 'private' if rec.get('tagUsed') == 'class' else 'public'
+    for c in rec.get('inner') or ():
+        if c is d:
+            return acc
+        if isinstance(c, dict) and c.get('kind') == 'AccessSpecDecl':
+            acc = c.get('access') or acc
+    return acc
+
+
 def is_internal(f):
-    """Internal linkage: a free function declared static or inside an unnamed namespace
-    (only code of this translation unit can call it)."""
-    if f.get('kind') != 'FunctionDecl':
+    """Callable only from inside the library's own code: a free function declared static or inside an unnamed
+    namespace, a member of a class declared in an unnamed namespace, or a private member function (its callers
+    are members and friends, all of which the whole-library call graph sees)."""
+    k = f.get('kind')
+    if k in ('CXXMethodDecl', 'CXXConstructorDecl'):
+        if f.get('name') == 'operator()' and ((f.get('_p') or {}).get('_p') or {}).get('kind') == 'LambdaExpr':
+            return False            # (lambdas are followed through the 'lambda' edges)
+        d = _in_class_decl(f)
+        if d is None:
+            return False
+        p = d.get('_p')
+        while p is not None:
+            if p.get('kind') == 'NamespaceDecl' and not p.get('name'):
+                return True
+            p = p.get('_p')
+        return k == 'CXXMethodDecl' and _member_access(d) == 'private' and not d.get('virtual')
+    if k != 'FunctionDecl':
         return False
     if f.get('storageClass') == 'static':
         return True
@@ -237,6 +341,15 @@ def entry_held(G, is_static_mutex_key):
     lrs = {}
     cand = set(k for k, (u, f) in G.defs.items() if is_internal(f) and sites.get(k) and not _address_taken(u, f))
     held = {k: (TOP if k in cand else frozenset()) for k in G.defs}
+    # a member function of a class that owns a lock_guard member runs while the object (hence the hold) exists
+    for k, (u, f) in G.defs.items():
+        if f.get('kind') == 'CXXMethodDecl' and f.get('storageClass') != 'static':
+            d = _in_class_decl(f)
+            rec = (d or {}).get('_p') or {}
+            w = wrapper_guard_records(u).get(rec.get('id'))
+            if w is not None and is_static_mutex_key(w[0]):
+                held[k] = frozenset([w[0]])
+                cand.discard(k)
 
     def lr_of(k):
         if k not in lrs:
